@@ -136,15 +136,17 @@ Definition broker_read_stream (b : broker) (since : nat) (ep : option nat) (limi
 
 (* node.go MapStreamRead: trim detection on top of the broker read.
    fx = false: the code as found (only when Since.Offset > 0 and the result is
-   non-empty); fx = true: the proposed rule (any lost prefix, incl. an emptied
-   window, whenever a position was given). *)
+   non-empty); fx = true: the proposed rule (a lost prefix or an emptied window
+   after any known position: offset > 0 or an epoch given). *)
 Definition node_read_stream (fx : bool) (b : broker) (since : nat) (ep : option nat) (limit : nat) : sread :=
   match broker_read_stream b since ep limit with
   | SErr => SErr
   | SOk pubs t e =>
       let first_gap := match pubs with (o, _) :: _ => Nat.ltb (S since) o | [] => false end in
       if fx then
-        if first_gap || (match pubs with [] => Nat.ltb since t | _ => false end) then SErr else SOk pubs t e
+        let known := Nat.ltb 0 since || match ep with Some _ => true | None => false end in
+        if known && (first_gap || (match pubs with [] => Nat.ltb since t | _ => false end))
+        then SErr else SOk pubs t e
       else
         if Nat.ltb 0 since && first_gap then SErr else SOk pubs t e
   end.
